@@ -166,7 +166,10 @@ pub fn format_comments(comments: &ChildTrivia, loc: CommentLocation, out: &mut P
 					p!(out, str(" "));
 				}
 				p!(out, str("# ") string(c.text().strip_prefix('#').expect("hash comment starts with #").trim().to_string()));
-				if !matches!(loc, CommentLocation::ItemInline) {
+				if matches!(loc, CommentLocation::ItemInline) {
+					// Whatever is printed next must not end up inside the comment
+					out.push_signal(dprint_core::formatting::Signal::ExpectNewLine);
+				} else {
 					p!(out, nl);
 				}
 			}
@@ -175,7 +178,10 @@ pub fn format_comments(comments: &ChildTrivia, loc: CommentLocation, out: &mut P
 					p!(out, str(" "));
 				}
 				p!(out, str("// ") string(c.text().strip_prefix("//").expect("comment starts with //").trim().to_string()));
-				if !matches!(loc, CommentLocation::ItemInline) {
+				if matches!(loc, CommentLocation::ItemInline) {
+					// Whatever is printed next must not end up inside the comment
+					out.push_signal(dprint_core::formatting::Signal::ExpectNewLine);
+				} else {
 					p!(out, nl);
 				}
 			}
